@@ -8,6 +8,7 @@
 //   float_driver binary <tier> <nrandom> <seed>  binary / ternary functions, both precisions: boundary grid x random
 //   float_driver approx <tier> <nrandom> <seed>  approximating unary functions, both precisions
 //   float_driver complex <tier> <nrandom> <seed> etl::complex functions (sample)
+//   float_driver args f|d <n> <hex bits>...      replay of one input through every function of that arity
 //   float_driver ct                              constexpr path on the boundary table (float_ct_table.hpp)
 //
 // Values travel as integers TLC can hold: float = [sign, biased exponent, mantissa(23 bit)],
@@ -66,9 +67,8 @@ struct Out {
     }
     void endl()
     {
-        buf += '\n';
+        buf += '\n'; // the finished event stays in the buffer until the next one begins (markers may be appended)
         ++n;
-        if (buf.size() > (1u << 20)) { flush(); }
     }
 } out;
 
@@ -177,7 +177,8 @@ char const* g_mode = "rt";
 template <class T>
 void head(char const* f)
 {
-    out.put("{\"f\":\"");
+    if (out.buf.size() > (1u << 20)) { out.flush(); }
+    out.put("{\"op\":\"");
     out.put(f);
     out.put("\",\"p\":\"");
     out.put(prec<T>());
@@ -390,6 +391,23 @@ std::vector<T> boundary()
     }
 }
 
+// boundary grid of the binary functions (x and y both range over it)
+template <class T>
+std::vector<T> grid()
+{
+    using L = std::numeric_limits<T>;
+    std::vector<T> v;
+    T const big = std::is_same_v<T, float> ? (T)8388607.5 : (T)4503599627370495.5; // largest value with a fraction
+    T const pos[] = {(T)0, L::denorm_min(), (T)(L::min() - L::denorm_min()), L::min(), (T)0.5, (T)0.75, (T)1,
+                     (T)(1 + L::epsilon()), (T)1.5, (T)2, (T)2.5, (T)3, (T)5, (T)7, (T)100.5, big, (T)16777216.0,
+                     (T)9223372036854775808.0, (T)1e30, L::max(), L::infinity(), L::quiet_NaN()};
+    for (T p : pos) {
+        v.push_back(p);
+        v.push_back(-p);
+    }
+    return v;
+}
+
 int fpclass_code(int c)
 {
     return c == FP_NAN ? 0 : c == FP_INFINITE ? 1 : c == FP_ZERO ? 2 : c == FP_SUBNORMAL ? 3 : c == FP_NORMAL ? 4 : -1;
@@ -483,6 +501,19 @@ void binary_exact(T x, T y)
 #endif
 #if VH_HAVE_remainder
     CALL2(remainder, T, x, y);
+    #if VH_HAVE_fmod
+    // extra observation for the triage of remainder deviations: what the implementation's fmod returns
+    {
+        std::string saved;
+        saved.swap(out.buf);
+        put_val(G(impl::fmod(launder(x), launder(y))));
+        std::string fm;
+        fm.swap(out.buf);
+        out.buf.swap(saved);
+        g_crashed = false;
+        out.buf.insert(out.buf.size() - 2, ",\"fm\":" + fm);
+    }
+    #endif
 #endif
 }
 
@@ -511,9 +542,6 @@ void ternary(T x, T y, T z)
 #endif
 #if VH_HAVE_hypot3
     ev3<T>("hypot3", x, y, z, G(impl::hypot(launder(x), launder(y), launder(z))), std::hypot(launder(x), launder(y), launder(z)));
-#endif
-#if VH_HAVE_fma
-    ev3<T>("fma", x, y, z, G(impl::fma(launder(x), launder(y), launder(z))), std::fma(launder(x), launder(y), launder(z)));
 #endif
 }
 
@@ -667,8 +695,8 @@ std::vector<int> dexps(bool thorough)
 {
     std::vector<int> v;
     for (int e = 0; e < 2048; ++e) {
-        bool near = (e >= 1023 - 70 && e <= 1023 + 70);
-        if (thorough || near || e < 3 || e > 2043 || e % 64 == 0) { v.push_back(e); }
+        bool near = (e >= 1023 - 3 && e <= 1023 + 56) || (e >= 1023 + 61 && e <= 1023 + 65);
+        if (thorough || near || e < 3 || e > 2043 || e % 256 == 0) { v.push_back(e); }
     }
     return v;
 }
@@ -694,9 +722,10 @@ template <class T>
 void run_binary_t(long nrandom, uint64_t seed)
 {
     auto B = boundary<T>();
+    auto G = grid<T>();
     Rng g(seed + 13);
-    for (T x : B) {
-        for (T y : B) {
+    for (T x : G) {
+        for (T y : G) {
             binary_exact<T>(x, y);
             binary_approx<T>(x, y);
         }
@@ -719,9 +748,11 @@ void run_binary_t(long nrandom, uint64_t seed)
         binary_exact<T>((T)(q * k + q / 2), q); // x/y = k + 1/2 (exact when representable): remainder ties
         binary_exact<T>((T)(q * k), q);
     }
-    // ternary: lerp / hypot3 / fma on a smaller grid
+    // ternary: lerp / hypot3 on a smaller grid
     std::vector<T> S;
-    for (size_t i = 0; i < B.size(); i += 3) { S.push_back(B[i]); }
+    for (size_t i = 0; i < G.size(); i += 2) { S.push_back(G[i]); }
+    S.push_back((T)-2.5);
+    S.push_back((T)-1);
     T const ts[] = {(T)0, (T)1, (T)0.5, (T)-1, (T)2, (T)0.25, (T)1e-3, (T)(1 - 1e-3), std::numeric_limits<T>::infinity(),
                     std::numeric_limits<T>::quiet_NaN()};
     for (T a : S) {
@@ -814,6 +845,26 @@ int main(int argc, char** argv)
     } else if (g == "complex") {
         run_complex_t<float>(nr, seed);
         run_complex_t<double>(nr, seed);
+    } else if (g == "args") { // replay of single inputs: args f|d <n> v1 [v2 [v3 [v4]]]  (values as hex bit patterns)
+        bool isf = std::string(argv[2]) == "f";
+        int n    = std::atoi(argv[3]);
+        if (argc < 4 + n) { return 2; }
+        auto rd = [&](int i) { return std::strtoull(argv[4 + i], nullptr, 16); };
+        if (isf) {
+            float a[4] = {};
+            for (int i = 0; i < n; ++i) { a[i] = std::bit_cast<float>((uint32_t)rd(i)); }
+            if (n == 1) { unary_exact<float>(a[0]), unary_approx<float>(a[0]); }
+            if (n == 2) { binary_exact<float>(a[0], a[1]), binary_approx<float>(a[0], a[1]), complex_fns<float>(a[0], a[1], 1.5f, -2.25f); }
+            if (n == 3) { ternary<float>(a[0], a[1], a[2]); }
+            if (n == 4) { complex_fns<float>(a[0], a[1], a[2], a[3]); }
+        } else {
+            double a[4] = {};
+            for (int i = 0; i < n; ++i) { a[i] = std::bit_cast<double>((uint64_t)rd(i)); }
+            if (n == 1) { unary_exact<double>(a[0]), unary_approx<double>(a[0]); }
+            if (n == 2) { binary_exact<double>(a[0], a[1]), binary_approx<double>(a[0], a[1]), complex_fns<double>(a[0], a[1], 1.5, -2.25); }
+            if (n == 3) { ternary<double>(a[0], a[1], a[2]); }
+            if (n == 4) { complex_fns<double>(a[0], a[1], a[2], a[3]); }
+        }
     }
 #ifdef VH_CT
     else if (g == "ct") {
